@@ -3,6 +3,7 @@
 package checks
 
 import (
+	"sort"
 	"sync"
 
 	"furikoverif/internal/sim"
@@ -14,3 +15,5 @@ var silenceOnce sync.Once
 func silenceLogs() {
 	silenceOnce.Do(sim.SilenceLogs)
 }
+
+func sortStrings(l []string) { sort.Strings(l) }
